@@ -6,12 +6,15 @@ package delivery_test
 // clock: every sequence, up to the depth bound, of bind (reserve), compatibility bind,
 // batch bind, finish, batch finish, cancel/rollback (own, consumed, stale and foreign-key
 // tokens), ack, session close, expire(ttl), clock tick and reset over 2 sessions x 2
-// messages, compared step by step with the map model of c32_model_test.go.
+// messages, compared step by step with the map model of c32_model_test.go. Behind every
+// executed transition Check additionally runs destructive probe suffixes on twins of the
+// state (c32_probe_test.go): the tracker's per-session index cannot be read, only asked.
 
 import (
 	"fmt"
 	"strconv"
 	"strings"
+	"sync/atomic"
 	"testing"
 	"time"
 
@@ -53,7 +56,27 @@ type c32Inst struct {
 	batch  []*c32Tok // last batch, input aligned (nil = item had no token)
 	batchP []delivery.PendingRecvAck
 	batchT []delivery.AckBindToken
+	// path is every event applied so far: Check rebuilds twins of this state from it for
+	// the destructive probes (the real tracker cannot be cloned or read).
+	path []string
+	// history facts about this path (vacuity guards only, never part of the oracle)
+	rebindCommitted    bool // a re-delivery bind of an identity with a finished delivery
+	cancelOnlyAttemptC bool // ... rolled back while it was the identity's only in-flight attempt
+	counted            bool // plain (unmerged) instance: feeds the guard counters
+	quiet              bool // probe twin: observation strings are not needed
+	indexProbesOnly    bool // run only the probes that read the session index (see c32_probe_test.go)
 }
+
+// obsf formats an observation label (skipped on probe twins, where nobody reads it).
+func (in *c32Inst) obsf(format string, args ...any) string {
+	if in.quiet {
+		return ""
+	}
+	return fmt.Sprintf(format, args...)
+}
+
+// guard counters (unmerged systems only, where the set of executed paths is fixed)
+var c32StatesAfterRebindCommitted, c32StatesAfterCancelOnlyC, c32ProbeRuns, c32ProbeSteps atomic.Int64
 
 func newC32Inst(cfg c32Cfg) *c32Inst {
 	in := &c32Inst{cfg: cfg, now: c32Clock0, model: newC32Model(cfg.limit), held: map[c32Key][]*c32Tok{}}
@@ -188,6 +211,7 @@ func (in *c32Inst) count(evl string) error {
 }
 
 func (in *c32Inst) Apply(evl string, _ *mc.Env) (string, error) {
+	in.path = append(in.path, evl)
 	parts := strings.Split(evl, ":")
 	obs := parts[0]
 	switch parts[0] {
@@ -202,6 +226,9 @@ func (in *c32Inst) Apply(evl string, _ *mc.Env) (string, error) {
 		}
 		p, id := in.pending(k, at)
 		res := in.tr.BindResult(p)
+		if e := in.model.m[k]; e != nil && e.committed {
+			in.rebindCommitted = true
+		}
 		bound, added := in.model.bind(k, id, wantAt, p.MessageSeq)
 		if res.Bound != bound || res.Added != added || res.Token.Valid() != bound {
 			return "", mc.Violatef("C32:bind-result-differs-from-model", "%s: BindResult Bound=%v Added=%v tokenValid=%v, model bound=%v added=%v", evl, res.Bound, res.Added, res.Token.Valid(), bound, added)
@@ -220,7 +247,7 @@ func (in *c32Inst) Apply(evl string, _ *mc.Env) (string, error) {
 			p.DeliveredAt = wantAt
 			in.held[k] = append(in.held[k], &c32Tok{key: k, id: id, tok: res.Token, pend: p})
 		}
-		obs = fmt.Sprintf("%s:bound=%v:added=%v", parts[0], bound, added)
+		obs = in.obsf("%s:bound=%v:added=%v", parts[0], bound, added)
 	case "bindc":
 		s, m := c32ParseSM(parts[1])
 		k := in.key(s, m)
@@ -233,7 +260,7 @@ func (in *c32Inst) Apply(evl string, _ *mc.Env) (string, error) {
 		if ok != bound {
 			return "", mc.Violatef("C32:bind-result-differs-from-model", "%s: Bind()=%v, model bound=%v", evl, ok, bound)
 		}
-		obs = fmt.Sprintf("bindc:bound=%v:added=%v", bound, added)
+		obs = in.obsf("bindc:bound=%v:added=%v", bound, added)
 	case "bindinv":
 		res := in.tr.BindResult(delivery.PendingRecvAck{UID: in.cfg.sess[0].uid, SessionID: 0, MessageID: 1})
 		if res.Bound || res.Added || res.Token.Valid() {
@@ -253,6 +280,9 @@ func (in *c32Inst) Apply(evl string, _ *mc.Env) (string, error) {
 			}
 			s, m := c32ParseSM(it)
 			ps[i], ids[i] = in.pending(in.key(s, m), 0)
+			if e := in.model.m[in.key(s, m)]; e != nil && e.committed {
+				in.rebindCommitted = true
+			}
 			b, a := in.model.bind(in.key(s, m), ids[i], in.now, ps[i].MessageSeq)
 			wantTok[i] = b
 			if b {
@@ -295,7 +325,7 @@ func (in *c32Inst) Apply(evl string, _ *mc.Env) (string, error) {
 			return "", mc.Violatef("C32:bind-result-count-differs-from-model", "%s: BindBatch.PendingCount=%d, model %d", evl, res.PendingCount, in.model.size())
 		}
 		in.batchP, in.batchT = ps, res.Tokens
-		obs = fmt.Sprintf("batch:bound=%d:added=%d", wantBound, wantAdded)
+		obs = in.obsf("batch:bound=%d:added=%d", wantBound, wantAdded)
 	case "finishbatch":
 		idx := []int{}
 		if parts[1] == "all" {
@@ -319,7 +349,7 @@ func (in *c32Inst) Apply(evl string, _ *mc.Env) (string, error) {
 			return "", mc.Violatef("C32:finish-result-differs-from-model", "%s: FinishBindBatch=%d, model %d", evl, got, want)
 		}
 		in.sweep('F')
-		obs = fmt.Sprintf("finishbatch:%d", want)
+		obs = in.obsf("finishbatch:%d", want)
 	case "finish", "cancel", "xcancel":
 		s, m := c32ParseSM(parts[1])
 		sel := ""
@@ -335,10 +365,13 @@ func (in *c32Inst) Apply(evl string, _ *mc.Env) (string, error) {
 				return "", mc.Violatef("C32:finish-result-differs-from-model", "%s: FinishBind=%v, model %v (token state %q)", evl, got, want, string(h.dead))
 			}
 			in.sweep('F')
-			obs = fmt.Sprintf("finish:%v", want)
+			obs = in.obsf("finish:%v", want)
 		case "cancel":
 			got := in.tr.CancelBind(h.pend, h.tok)
 			c, r := in.model.cancel(h.key, h.id)
+			if e := in.model.m[h.key]; c && e != nil && e.committed && len(e.attempts) == 0 {
+				in.cancelOnlyAttemptC = true
+			}
 			if got.Canceled != c || got.Removed != r {
 				return "", mc.Violatef("C32:cancel-result-differs-from-model", "%s: CancelBind Canceled=%v Removed=%v, model canceled=%v removed=%v (token state %q)", evl, got.Canceled, got.Removed, c, r, string(h.dead))
 			}
@@ -346,7 +379,7 @@ func (in *c32Inst) Apply(evl string, _ *mc.Env) (string, error) {
 				return "", mc.Violatef("C32:cancel-result-count-differs-from-model", "%s: CancelBind.PendingCount=%d, model %d", evl, got.PendingCount, in.model.size())
 			}
 			in.sweep('C')
-			obs = fmt.Sprintf("cancel:%v:%v", c, r)
+			obs = in.obsf("cancel:%v:%v", c, r)
 		case "xcancel":
 			// the token of (s,m) presented for the session's OTHER message: never matches
 			other := h.pend
@@ -370,7 +403,7 @@ func (in *c32Inst) Apply(evl string, _ *mc.Env) (string, error) {
 			}
 		}
 		in.sweep('R')
-		obs = fmt.Sprintf("ack:%v", want)
+		obs = in.obsf("ack:%v", want)
 	case "ackx":
 		k := in.key(0, 0)
 		a := delivery.Recvack{UID: k.uid, SessionID: k.sid, MessageID: k.mid}
@@ -396,7 +429,7 @@ func (in *c32Inst) Apply(evl string, _ *mc.Env) (string, error) {
 			return "", err
 		}
 		in.sweep('R')
-		obs = fmt.Sprintf("%s:%d", parts[0], len(want))
+		obs = in.obsf("%s:%d", parts[0], len(want))
 	case "tick":
 		in.now++
 	case "expire":
@@ -410,7 +443,7 @@ func (in *c32Inst) Apply(evl string, _ *mc.Env) (string, error) {
 			return "", err
 		}
 		in.sweep('R')
-		obs = fmt.Sprintf("expire:%d", len(want))
+		obs = in.obsf("expire:%d", len(want))
 	case "reset":
 		in.tr.Reset()
 		in.model.reset()
@@ -427,7 +460,7 @@ func (in *c32Inst) Apply(evl string, _ *mc.Env) (string, error) {
 			}
 		}
 		in.sweep('R')
-		obs = fmt.Sprintf("drain:%d", n)
+		obs = in.obsf("drain:%d", n)
 	default:
 		panic("unknown event " + evl)
 	}
@@ -437,7 +470,25 @@ func (in *c32Inst) Apply(evl string, _ *mc.Env) (string, error) {
 	return obs, nil
 }
 
-func (in *c32Inst) Check() error { return in.count("state") }
+// Check is evaluated by the explorer on EVERY executed transition, before the state is
+// merged. Besides the counter it runs the destructive probes of c32_probe_test.go on twins
+// of this state, so that what SessionClosed / Ack / Expire / the per-session limit would
+// answer NOW is judged against the model in every state - also in states that are merged
+// into an observably equal one reached by a shorter path, and in states at the depth bound.
+func (in *c32Inst) Check() error {
+	if err := in.count("state"); err != nil {
+		return err
+	}
+	if in.counted {
+		if in.rebindCommitted {
+			c32StatesAfterRebindCommitted.Add(1)
+		}
+		if in.cancelOnlyAttemptC {
+			c32StatesAfterCancelOnlyC.Add(1)
+		}
+	}
+	return in.probes()
+}
 
 func (in *c32Inst) Canon() string {
 	var b strings.Builder
@@ -487,23 +538,24 @@ func TestVerifC32(t *testing.T) {
 	r := ev.Start(t, "C32")
 	defer r.Finish()
 	plainDepth := ev.Pick(r, 3, 4)
+	indexOnly := ev.Pick(r, true, false) // merged systems, quick tier: close-all + rollback-all only
 	var states, trans int64
 	outcomes := 0
 	for _, cfg := range c32Configs(r.Thorough()) {
 		cfg := cfg
 		res := mc.Run(r, mc.System{
-			Name: cfg.name, New: func() mc.Instance { return newC32Inst(cfg) }, MaxDepth: ev.Pick(r, cfg.depthQ, cfg.depthT),
-			Bounds: map[string]any{"sessions": 2, "messages": 2, "shard_count": cfg.shards, "max_pending_per_session": cfg.limit, "ttl_menu_ms": cfg.ttls},
-			Note:   "merged on PendingCount + map model (delivery ages capped at the largest ttl) + dead-token kinds + last-batch token states",
+			Name: cfg.name, New: func() mc.Instance { in := newC32Inst(cfg); in.indexProbesOnly = indexOnly; return in }, MaxDepth: ev.Pick(r, cfg.depthQ, cfg.depthT),
+			Bounds: map[string]any{"sessions": 2, "messages": 2, "shard_count": cfg.shards, "max_pending_per_session": cfg.limit, "ttl_menu_ms": cfg.ttls, "probe_suffixes": ev.Pick(r, "close-all, rollback-all", "all five")},
+			Note:   "merged on PendingCount + map model (delivery ages capped at the largest ttl) + dead-token kinds + last-batch token states; every transition additionally runs destructive probe suffixes on twins rebuilt from the path, before merging (quick: close-all + rollback-all; thorough: also admit-then-ack, age-out, finish-all)",
 		})
 		states += res.States
 		trans += res.Transitions
 		outcomes += res.Outcomes
 		// the same alphabet with no merging at all (plain enumeration of every sequence)
 		plain := mc.Run(r, mc.System{
-			Name: cfg.name + "-unmerged", New: func() mc.Instance { return &c32Plain{newC32Inst(cfg)} }, MaxDepth: plainDepth,
-			Bounds: map[string]any{"shard_count": cfg.shards, "max_pending_per_session": cfg.limit},
-			Note:   "no state merging: every event sequence up to the depth bound",
+			Name: cfg.name + "-unmerged", New: func() mc.Instance { in := newC32Inst(cfg); in.counted = true; return &c32Plain{in} }, MaxDepth: plainDepth,
+			Bounds: map[string]any{"shard_count": cfg.shards, "max_pending_per_session": cfg.limit, "probe_suffixes": "all five"},
+			Note:   "no state merging: every event sequence up to the depth bound, each followed by the probe suffixes close-all, admit-then-ack, age-out and, with attempts in flight, rollback-all, finish-all",
 		})
 		trans += plain.Transitions
 	}
@@ -513,7 +565,15 @@ func TestVerifC32(t *testing.T) {
 	r.Guard("states", states >= 1000, "merged states=%d", states)
 	r.Guard("transitions", trans >= 20000, "transitions=%d", trans)
 	r.Guard("outcomes", outcomes >= 30, "distinct observations=%d", outcomes)
+	// the class "re-delivery of a finished identity, rolled back as its only in-flight attempt"
+	// is reached and probed (counted over the unmerged systems, whose path set is fixed)
+	r.Guard("rebind-of-committed-identity", c32StatesAfterRebindCommitted.Load() >= 50, "unmerged states after a re-delivery bind of a finished identity=%d", c32StatesAfterRebindCommitted.Load())
+	r.Guard("cancel-of-only-attempt-of-committed-identity", c32StatesAfterCancelOnlyC.Load() >= 10, "unmerged states after such a rollback (each probed with close/ack/expire/limit)=%d", c32StatesAfterCancelOnlyC.Load())
+	r.Guard("probes", c32ProbeRuns.Load() >= trans, "probe suffixes executed=%d (>=1 behind each of %d transitions), probe events=%d", c32ProbeRuns.Load(), trans, c32ProbeSteps.Load())
+	r.Count("probe_suffixes_executed", c32ProbeRuns.Load())
+	r.Count("probe_events_executed", c32ProbeSteps.Load())
 	r.Assume("the tracker is translation invariant in time: merged states keep delivery ages (capped at the largest ttl of the menu), not absolute seconds")
+	r.Assume("probe twins are rebuilt by re-applying the recorded path to a fresh tracker: the tracker is deterministic given the injected clock (a twin whose replay reports a violation the original did not is a harness error and panics)")
 	r.Assume("expiry boundary follows the code: an identity whose newest candidate has age >= ttl (whole seconds, ttl rounded up) is expired")
 }
 
